@@ -86,6 +86,22 @@ type Conn struct {
 	LastReadN int
 	// WriteN records the accepted byte count of the first 16 Write calls.
 	WriteN []int
+	// FirstErrAt is the instant of the first operation at this end that
+	// returned an error or a short count (zero = none yet).
+	FirstErrAt time.Time
+}
+
+func (c *Conn) noteErr(err error) {
+	if err != nil && c.FirstErrAt.IsZero() {
+		c.FirstErrAt = time.Now()
+	}
+}
+
+// FirstErr returns FirstErrAt under the lock.
+func (c *Conn) FirstErr() time.Time {
+	c.mu.Lock()
+	defer c.mu.Unlock()
+	return c.FirstErrAt
 }
 
 // PeerClosed reports whether the other end called Close.
@@ -258,6 +274,11 @@ func (c *Conn) Read(p []byte) (int, error) {
 		c.mu.Lock()
 		if c.readReadyLocked() || len(p) == 0 {
 			n, err := c.readLocked(p)
+			if n == 0 {
+				// data returned together with an error is not yet the end of the
+				// stream for the reader: it still has bytes to deliver
+				c.noteErr(err)
+			}
 			c.mu.Unlock()
 			return n, err
 		}
@@ -371,6 +392,7 @@ func (c *Conn) Write(p []byte) (int, error) {
 			n, err := c.writeLocked(p)
 			if err != nil || n < len(p) {
 				c.WriteFailed++
+				c.noteErr(io.ErrShortWrite)
 			}
 			if len(c.WriteN) < 16 {
 				c.WriteN = append(c.WriteN, n)
@@ -544,6 +566,7 @@ func (c *Conn) setDeadline(which string, t time.Time) error {
 	if f, ok := c.plan[opKey{"deadline", idx}]; ok {
 		c.lg.Fault(f.Name)
 		c.logf("deadline#%d -> FAULT %s", idx, f.Name)
+		c.noteErr(f.Err)
 		return f.Err
 	}
 	if c.closed {
